@@ -3,7 +3,7 @@ CONSTANTS
   Variant = "fixed"
   Topos = {"face2", "edge2", "corner2", "row3", "ell3", "hook3"}
   Rot1Choice = {1}
-  RotChoice = {1, 12, 30}
+  RotChoice = {1, 11, 30}
   ChopOpts = {"A2", "B3", "D1E2"}
   MaxChopped = 2
   AllOrders = FALSE
